@@ -62,6 +62,28 @@ impl CodeCache {
     self.exec_memory.make_executable();
   }
 
+  /// Verification hook: absolute addresses of the shared prologue and epilogue
+  #[cfg(gb_dynarec_verif)]
+  pub fn verif_entry_points(&self) -> (usize, usize) {
+    let start = self.get_memory_start_address();
+    (start + self.prologue_location, start + self.epilogue_location)
+  }
+
+  /// Verification hook: (cache key, code offset, guest bytes translated) of
+  /// every cached block, plus the number of code-area bytes in use
+  #[cfg(gb_dynarec_verif)]
+  pub fn verif_cached_blocks(&self) -> (Vec<(u32, usize, usize)>, usize) {
+    let mut blocks = Vec::new();
+    for addr in [0x0000u16, 0x4000, 0xa000, 0xc000, 0xd000, 0xff80].iter() {
+      if let Some(region) = self.code_blocks.get_region(*addr) {
+        for (key, block) in region.cache.iter() {
+          blocks.push((*key, block.offset, block.bytes_translated));
+        }
+      }
+    }
+    (blocks, self.write_cursor)
+  }
+
   pub fn get_memory_start_address(&self) -> usize {
     self.exec_memory.get_memory_area().as_ptr() as *const () as usize
   }
